@@ -165,6 +165,57 @@ pub const MUTATORS: &[&str] = &[
     "trap 'echo d' DEBUG",
     "trap 'echo r' RETURN",
     "trap 'probe leaked_exit' EXIT",
+    "shopt -so noclobber",
+    "set -C",
+    "set -f",
+    "set -E -T",
+    "set -a",
+    "set +B",
+    "shopt -s globstar dotglob nocaseglob nocasematch",
+    "shopt -u sourcepath",
+    "gf12() { declare -g v1=fromfunc; declare -g v10=new10; }; gf12",
+    "OPTIND=3",
+    "OPTERR=0",
+    "read -a arr <<< 'r1 r2'",
+    "mapfile -t arr < <(echo m2)",
+    "readonly arr",
+    "declare -r assoc",
+    "trap 'echo e' ERR",
+    "trap '' INT",
+    "complete -F fn1 cmdx",
+    "cd ..",
+    "PWD=/nonexistent_c12",
+    "unset PWD",
+    "unset -f fn2; unset v4",
+    "function fn1 { echo redefined; }",
+    "alias a0='echo changed'",
+    "unalias -a",
+    "set --",
+    "shift 2",
+    "exec 5>>other5.txt",
+    "exec 6<&0",
+    "exec 3<>rw3.txt",
+    "exec 5>&1",
+    "hash xtrue",
+    "PATH=/nonexistent_c12",
+    "let 'v6+=1'",
+    "printf -v 'arr[2]' q",
+    "typeset -x v2",
+    "export v7=seven",
+    "eval 'alias a2=x; fn9() { :; }'",
+    "command cd /",
+    "builtin cd sub",
+    "pushd -n / >/dev/null",
+    "declare -a v1",
+    "declare -A newmap=([x]=y)",
+    "v4+=appended",
+    "declare +i v6; v6=text",
+    "unset -n nref",
+    "set -o errexit",
+    "set -o noclobber; echo x > keep5.txt",
+    "trap 'probe usr1b' USR1",
+    "trap -- - EXIT USR1",
+    "enable -n cd; enable -n pushd",
 ];
 
 pub const PROCESS_WIDE: &[&str] = &["umask 077", "ulimit -S -n 768"];
@@ -195,7 +246,7 @@ fn ctx_text(ctx: &Context, body: &str, idx: usize) -> (String, String) {
         Context::CoprocSimple => {
             // only the first mutator, and only if it is a bare simple command
             let first = body.split("; ").next().unwrap_or(":");
-            let simple = !first.contains("()") && !first.starts_with("((") && !first.starts_with('.') && !first.contains("<<<");
+            let simple = !first.contains("()") && !first.starts_with("function ") && first.matches('\'').count() % 2 == 0 && !first.starts_with("((") && !first.starts_with('.') && !first.contains("<<<");
             // (a neutralised mutator is `:`; the body must be a word the parser takes as a command)
             // the trailing `;` keeps a following `{ ...; }` line from being taken as the body of
             // `coproc NAME`
